@@ -1541,3 +1541,42 @@ Example ml_generated :
   = Some [ (1%nat, [[74%N; 79%N; 66%N]; k_out; s_l; meta_key 0; s_otxt]);
            (2%nat, [[74%N; 79%N; 66%N]; k_out; s_l; dec 0; s_otxt]) ].
 Proof. vm_compute. reflexivity. Qed.
+
+(* ---- what the identifier ignores but the walk follows (open findings) ------------------------ *)
+(* a parameter the identifier ignores (Meta[...]) declared before p: T(m=s, p=s) and T(p=s) have one identifier,
+   one job directory; the shared s is placed under out/m in one, out/p in the other                       *)
+Definition s_m : str := [109%N].
+Definition ig_heap1 : heap := [ mk 0 [(s_m, VRef 1); (s_p, VRef 1)] []; mk 1 [] [] ].
+Definition ig_heap2 : heap := [ mk 0 [(s_p, VRef 1)] []; mk 1 [] [] ].
+
+Theorem ignored_parameter_refuted :
+  exists h h' gens root jd s,
+    (* h' is h without the value of the first (ignored) parameter of the root *)
+    (exists nd rest kv, h = nd :: rest /\ h' = {| cls := cls nd; fields := tl (fields nd); pre := pre nd; init := init nd;
+                                               task := task nd; sealed := sealed nd |} :: rest /\ hd_error (fields nd) = Some kv) /\
+    path_of s (generated esc_fix seal_edges h gens root jd) <> path_of s (generated esc_fix seal_edges h' gens root jd).
+Proof.
+  exists ig_heap1, ig_heap2, ml_gens, 0%nat, ex_jd, 1%nat. split.
+  - exists (mk 0 [(s_m, VRef 1); (s_p, VRef 1)] []), [mk 1 [] []], (s_m, VRef 1). repeat split.
+  - vm_compute. intros E. inversion E.
+Qed.
+
+(* the full identifier hashes the set of the pre-tasks of the whole graph: T(a=A+q, b=B) and T(a=A, b=B+q) have one
+   identifier, one job directory; q is placed under out/a/__pre_tasks__/0 in one, out/b/__pre_tasks__/0 in the other *)
+Definition s_a : str := [97%N].
+Definition s_b : str := [98%N].
+Definition at_gens : list (list (str * str)) := [[]; []; [(s_p, s_otxt)]].
+Definition at_heap1 : heap := [ mk 0 [(s_a, VRef 1); (s_b, VRef 2)] []; mk 1 [] [3%nat]; mk 1 [] []; mk 2 [] [] ].
+Definition at_heap2 : heap := [ mk 0 [(s_a, VRef 1); (s_b, VRef 2)] []; mk 1 [] []; mk 1 [] [3%nat]; mk 2 [] [] ].
+
+Theorem pretask_attachment_refuted :
+  exists h h' gens root jd q,
+    (* the same configurations, the same set of pre-tasks over the graph, attached to another configuration *)
+    map (fun nd => (cls nd, fields nd, init nd, task nd, sealed nd)) h
+    = map (fun nd => (cls nd, fields nd, init nd, task nd, sealed nd)) h' /\
+    Permutation (flat_map pre h) (flat_map pre h') /\
+    path_of q (generated esc_fix seal_edges h gens root jd) <> path_of q (generated esc_fix seal_edges h' gens root jd).
+Proof.
+  exists at_heap1, at_heap2, at_gens, 0%nat, ex_jd, 3%nat.
+  split; [reflexivity|]. split; [apply Permutation_refl|]. vm_compute. intros E. inversion E.
+Qed.
